@@ -279,7 +279,9 @@ CLAIMED["C10"] = dict(
          "PROVED through the whole presolve loop for every configuration whose simple controls are sim-time conditions without repeat and any "
          "rules (sorted backtracks, three branches), giving restart equivalence without side condition there; for clock / repeating conditions "
          "(whose backtracks are wrong in the code, C04 findings) it stays a per-case check; an on/off window of two AT TIME controls (a leak) paused ANYWHERE and continued by a new simulator object keeps the target on exactly on "
-         "[ts, te) with steps solved at ts and te after the pause (C10_window_survives_pause, a functional statement across the restart); "
+         "[ts, te) with steps solved at ts and te after the pause (C10_window_survives_pause, a functional statement across the restart), and so does "
+         "ANY set of AT TIME controls at distinct instants (C10_control_set_survives_pause: every solved step of both parts shows the command of "
+         "the latest control reached, nothing before the pause is revisited, no changing instant after it is stepped over); "
          "for the same fragment the solved times are PROVED strictly "
          "increasing in one run and across a pause (a time is never revisited); with the index "
          "restarted at 0 (the behaviour before the fix) the model provably steps back to t = 0. Ties decided inside coqc: for generated "
